@@ -15,6 +15,7 @@ import contextlib
 import itertools
 import json
 import operator
+import os
 import re
 
 import dask
@@ -43,7 +44,7 @@ EXPLANATION = (
     "Theorems: every group of the pass is GroupOK (C14_group_ok), the fused sub-graph computes what the unfused member "
     "tasks compute for every interpretation (C14_task), meta (C14_meta), each successful pass strictly decreases the "
     "number of reachable blockwise nodes (C14_terminates). Tie: real groups / plans / sub-graphs vs model on enumerated "
-    "stub DAGs and real expression DAGs under controlled set order; native-order groups through proven checkers. "
+    "stub DAGs and real expression DAGs pass by pass (model driven with the string order of the real names); every real group also through the proven, order-independent checkers. "
     "Support: optimize(fuse=True) vs optimize(fuse=False) per output partition over the vetted program space."
 )
 
@@ -529,7 +530,7 @@ def _count_blockwise(expr):
 
 
 def fam_native(ctx):
-    """T3: unmodified code (native set order): every group satisfies the proven checker groupOKb,
+    """T3: every group the real code finds satisfies the proven (order-independent) checker groupOKb,
     every plan the hypothesis planOKb of C14_terminates, every resulting Fused satisfies fusedOK
     (the hypothesis of C14_task); T2: the measure of C14_terminates is the number of reachable
     valid blockwise expressions of the real plan (before and after each pass)."""
@@ -855,8 +856,8 @@ def _cases(ctx, broken):
         rng.shuffle(idx)
         idx = idx[:180]
     for j, i in enumerate(idx):
-        lay = layouts[j % len(layouts)] if ctx.quick else None
-        for cl, cr in ([lay] if lay else layouts[:3]):
+        lay = layouts[j % len(layouts)]
+        for cl, cr in [lay]:
             cases.append({"kind": "program", "program": progs[i].name, "depth": depth, "cutsL": cl, "cutsR": cr,
                           "known": (j % 3 != 0)})
     for _ in range(300 if ctx.quick else 6000):
@@ -880,22 +881,38 @@ def _cases(ctx, broken):
     return steered + cases
 
 
+def _safe_run(case):
+    try:
+        return run_case(case)
+    except Exception as e:  # noqa: BLE001
+        return f"harness could not run the case: {type(e).__name__}: {str(e)[:200]}"
+
+
 def support(ctx, broken):
     sup = Support()
-    for case in _cases(ctx, broken):
-        try:
-            msg = run_case(case)
-        except Exception as e:  # noqa: BLE001
-            msg = f"harness could not run the case: {type(e).__name__}: {str(e)[:200]}"
-        sup.executed += 1
-        sup.count(case["kind"] + ("/twice" if case.get("twice") else ""))
-        if len(sup.samples) < 3:
-            sup.samples.append(case)
-        if msg:
-            sig = {"kind": case["kind"], "what": msg.split(":")[0][:40]}
-            sup.failures.append(Failure(sig=sig, case=case, detail=msg))
-            if len(sup.failures) >= 5:
-                break
+    cases = _cases(ctx, broken)
+    if ctx.quick:
+        results = ((c, _safe_run(c)) for c in cases)
+        pool = None
+    else:
+        import multiprocessing as mp
+
+        pool = mp.get_context("fork").Pool(min(14, os.cpu_count() or 4))
+        results = zip(cases, pool.imap(_safe_run, cases, chunksize=16))
+    try:
+        for case, msg in results:
+            sup.executed += 1
+            sup.count(case["kind"] + ("/twice" if case.get("twice") else ""))
+            if len(sup.samples) < 3:
+                sup.samples.append(case)
+            if msg:
+                sig = {"kind": case["kind"], "what": msg.split(":")[0][:40]}
+                sup.failures.append(Failure(sig=sig, case=case, detail=msg))
+                if len(sup.failures) >= 5:
+                    break
+    finally:
+        if pool is not None:
+            pool.terminate()
     return sup
 
 
